@@ -8,8 +8,10 @@ import (
 	"fmt"
 	"os"
 	"path/filepath"
+	"regexp"
 	"sort"
 	"strconv"
+	"strings"
 	"sync"
 	"time"
 )
@@ -112,6 +114,7 @@ func (r *Run) Quick() bool { return r.Tier != "thorough" }
 
 // IsKnown reports whether sig is a listed finding (so that explorers can prune behind it).
 func (r *Run) IsKnown(sig string) bool {
+	sig = NormSig(sig)
 	r.mu.Lock()
 	defer r.mu.Unlock()
 	_, ok := r.known[sig]
@@ -121,6 +124,7 @@ func (r *Run) IsKnown(sig string) bool {
 // Report records a property violation with a signature. Listed findings are counted, not reported.
 // Returns true if it was a known finding.
 func (r *Run) Report(sig, msg string, cas any) bool {
+	sig = NormSig(sig)
 	r.mu.Lock()
 	defer r.mu.Unlock()
 	if _, ok := r.known[sig]; ok {
@@ -254,4 +258,21 @@ func clip300(s string) string {
 		return s[:300] + "..."
 	}
 	return s
+}
+
+var reSigNums = regexp.MustCompile(`\[[0-9:x]*\]|[0-9]+`)
+
+// NormSig drops indices, lengths and capacities from the panic part of a signature, so that one faulty site is one
+// signature whatever the values involved.
+func NormSig(sig string) string {
+	i := strings.Index(sig, "panic")
+	if i < 0 {
+		return sig
+	}
+	head, s := sig[:i], sig[i:]
+	s = reSigNums.ReplaceAllString(s, "")
+	s = strings.ReplaceAll(s, " with length ", "")
+	s = strings.ReplaceAll(s, " with capacity ", "")
+	s = strings.ReplaceAll(s, "runtime error: ", "")
+	return head + strings.Join(strings.Fields(s), " ")
 }
